@@ -8,6 +8,7 @@ var Registry = map[string]func(*core.Ctx){
 	"C11": RunC11,
 	"C12": RunC12,
 	"C13": RunC13,
+	"C14": RunC14,
 	"C20": RunC20,
 }
 
@@ -17,4 +18,5 @@ func RegisterOnly(c *core.Ctx) {
 	registerRvKinds(c)
 	registerCoseKinds(c)
 	registerCrypterKinds(c)
+	registerKexKinds(c)
 }
